@@ -53,8 +53,8 @@ def impl(inp, floats=False):
     if floats:
         for i, w in enumerate(wags):
             if w[3] and w[2] > 0:       # active with positive health: a non-dyadic health instead
-                agents[G.aid(i)]._health = (fspec[i][0] / fspec[i][1] if fspec
-                                            else F_HEALTH[(w[2] + i + seed) % len(F_HEALTH)])
+                agents[G.aid(i)].health = (fspec[i][0] / fspec[i][1] if fspec
+                                           else F_HEALTH[(w[2] + i + seed) % len(F_HEALTH)])
     full = max(rows, cols) - 1
     mp = {k: v for k, v in mapping}
     out_ops, recs = [], []
